@@ -383,12 +383,14 @@ def replay(oid, kwargs, model, data):
         from pyxel.util import set_random_seed
 
         res = {}
+        drawn = []
+        raw = model.get("seed", model.get("pipeline_seed", 5))
+        seed = int(raw if raw is not None else 5) % (2**31)
         for prior in (1, 2):
             np.random.seed(2000 + prior)
             if prior == 2:
                 np.random.normal()
             before = np.random.get_state()
-            seed = int(model.get("seed", model.get("pipeline_seed", 5)) or 5) % (2**31)
             if data["fn"] == "ctx":
                 given = bool(model.get("seed_given", True))
                 try:
@@ -405,17 +407,23 @@ def replay(oid, kwargs, model, data):
                 import pyxel
                 from pyxel.exposure import Exposure, Readout
 
-                def hook(d, tag, kw_, rec):
-                    np.random.random()
+                vals = []
+
+                def hook(d, tag, kw_, rec, vals=vals):
+                    vals.append(float(np.random.random()))
 
                 vxprobes.reset(hook)
                 try:
                     pyxel.run_mode(mode=Exposure(readout=Readout(times=[1.0]), pipeline_seed=seed), detector=make_ccd(2, 2), pipeline=_pipe())
                 finally:
                     vxprobes.reset(None)
+                drawn.append(vals)
             after = np.random.get_state()
             res[f"state_changed_prior{prior}"] = not (before[0] == after[0] and np.array_equal(before[1], after[1]) and tuple(before[2:]) == tuple(after[2:]))
-        return bool(res.get("state_changed_prior1") or res.get("state_changed_prior2")), res
+        if drawn:
+            res["seeded_runs_identical"] = drawn[0] == drawn[1]
+            res["pipeline_seed"] = seed
+        return bool(res.get("state_changed_prior1") or res.get("state_changed_prior2") or res.get("seeded_runs_identical") is False), res
     if data["fn"] == "plumb" and kwargs["mode"] == "calibration":
         import inspect
 
